@@ -18,21 +18,8 @@ Section fparam_ind'.
     end.
 End fparam_ind'.
 
-(* member names distinct in every components list *)
-Inductive wf_names : fparam -> Prop :=
-| WN n t i x cs : NoDup (map fp_name cs) -> Forall wf_names cs -> wf_names (FParam n t i x cs).
 
-(* the entry that comes back: components under a non-tuple type (which the ABI type parser never
-   looks at) are dropped, everything else is kept *)
-Definition is_tuple_type (t : bytes) : bool := bytes_eqb (take_lower t) (ascii_bytes tuple_type_string).
-Fixpoint norm (p : fparam) : fparam :=
-  match p with
-  | FParam n t i x cs => FParam n t i x (if is_tuple_type t then map norm cs else [])
-  end.
 
-(* no components under a non-tuple type, at any depth *)
-Inductive clean : fparam -> Prop :=
-| CL n t i x cs : (is_tuple_type t = false -> cs = []) -> Forall clean cs -> clean (FParam n t i x cs).
 
 Lemma norm_clean p : clean p -> norm p = p.
 Proof.
@@ -366,10 +353,6 @@ Proof.
 Qed.
 
 (* ---------- one parameter, there and back ---------- *)
-(* what "the schema arrives intact" means for the oracle inputs of the way back: the jsonschema
-   compile accepts it and json.Unmarshal yields the struct that was marshalled *)
-Definition faithful (pn : pin) (ns : bytes * schema) : Prop :=
-  pi_name pn = fst ns /\ pi_verdict pn = true /\ pi_unm pn = Some (Some (snd ns)).
 
 Lemma roundtrip_convert p ns pn :
   paramToFFI p = Ok ns -> wf_names p -> faithful pn ns -> convertFFIParam pn = Ok (norm p).
@@ -390,7 +373,6 @@ Proof.
   rewrite EP. cbn [bind]. rewrite Gs. cbn [bind]. eauto.
 Qed.
 
-Definition parses (p : fparam) : Prop := exists tc, parseABIParameterComponents (erase p) = Ok tc.
 
 Lemma paramsToFFI_ok l : Forall parses l -> Forall wf_names l -> exists xs, paramsToFFI l = Ok xs.
 Proof.
@@ -423,7 +405,6 @@ Proof.
 Qed.
 
 (* ---------- entries ---------- *)
-Definition valid_params (l : list fparam) : Prop := Forall parses l /\ Forall wf_names l.
 
 Theorem roundtrip_function e :
   valid_params (e_inputs e) -> valid_params (e_outputs e) ->
@@ -472,7 +453,6 @@ Proof.
 Qed.
 
 (* ---------- whole ABIs, Go map order universally quantified ---------- *)
-Definition named (e : entry) : bool := negb (is_nil_b (e_name e)).
 Definition estep (f : entry -> bool) (m : list (bytes * entry)) (e : entry) :=
   if negb (is_nil_b (e_name e)) && f e then map_set (e_name e) e m else m.
 
@@ -518,7 +498,6 @@ Proof.
     + destruct (Il _ _ I') as (x' & E' & I''). exists x'. split; [exact E'|right; exact I''].
 Qed.
 
-Definition valid_entry (e : entry) : Prop := valid_params (e_inputs e) /\ valid_params (e_outputs e).
 
 Theorem roundtrip_abi abi :
   NoDup (map e_name (filter named abi)) ->
